@@ -570,13 +570,16 @@ func c20Random(r *rand.Rand, steps, maxVars int, renderAll bool) []c20Op {
 
 func (c20) Generate(r *rand.Rand, t string) []*Case {
 	var out []*Case
+	// Sizes: quick about 3k histories; thorough 100k.  (200k - 60k + 140k - was run once when
+	// this was written: no failure, 11m40s, but 25 GB peak RSS because main.go keeps every case,
+	// line and observation alive until the report is written; 100k needs about half of both.)
 	// every variable rendered after every step
-	n := tier(t, 1200, 60000)
+	n := tier(t, 1200, 30000)
 	for i := 0; i < n; i++ {
 		out = append(out, c20Case(c20Random(r, 5+r.Intn(26), 1+r.Intn(6), true), "render-all", ""))
 	}
 	// longer histories rendered at random points and completely at the end
-	n = tier(t, 1800, 140000)
+	n = tier(t, 1800, 70000)
 	for i := 0; i < n; i++ {
 		out = append(out, c20Case(c20Random(r, 5+r.Intn(56), 1+r.Intn(6), false), "render-some", ""))
 	}
